@@ -3,6 +3,7 @@ package sample
 import (
 	"encoding/json"
 	"fmt"
+	"math"
 	"math/rand"
 	"strings"
 
@@ -371,6 +372,19 @@ func compare(a, b interface{}) (int, bool) {
 		}
 
 		return less, true
+	}
+
+	// msgpack carries unsigned integers and 32-bit floats as uint64 and float32;
+	// they compare like the same number sent as int64 / float64 or as JSON
+	switch at := a.(type) {
+	case uint64:
+		if at <= math.MaxInt64 {
+			a = int64(at)
+		} else {
+			a = float64(at)
+		}
+	case float32:
+		a = float64(at)
 	}
 
 	if b == nil {
